@@ -298,6 +298,85 @@ func runCAS(e *hx.Env, m *hx.Model, dir string, k kase) {
 	}
 }
 
+// lockstep rounds: all G writers read the version, then all try to update from that same version
+// at once: exactly one must win each round; after every round stale writers (expected "", the
+// previous round's version, a version that never existed) must fail and change nothing.
+func runCASLockstep(e *hx.Env, m *hx.Model, dir string, k kase) {
+	var bs blobstore.Blobstore
+	if k.Store == "inmem" {
+		bs = blobstore.NewInMemoryBlobstore("")
+	} else {
+		d := filepath.Join(dir, fmt.Sprintf("casl-%d-%d", k.Seed, k.G))
+		os.MkdirAll(d, 0o755)
+		bs = blobstore.NewLocalBlobstore(d)
+	}
+	e.Rep.Count(fmt.Sprintf("casl %s %d %d %d", k.Store, k.G, k.Rounds, k.Seed), true)
+	e.Rep.TracesValidated++
+	e.Rep.Hit("casl:" + k.Store)
+	m.Ask("reset")
+	prev, cur := "", ""
+	for r := 0; r < k.Rounds; r++ {
+		oks := make([]bool, k.G)
+		vers := make([]string, k.G)
+		var wg sync.WaitGroup
+		start := make(chan struct{})
+		for g := 0; g < k.G; g++ {
+			wg.Add(1)
+			go func(g int) {
+				defer wg.Done()
+				<-start
+				nv, err := bs.CheckAndPutManifest(ctx, cur, []byte(fmt.Sprintf("r%d-g%d", r, g)))
+				oks[g], vers[g] = err == nil, nv
+			}(g)
+		}
+		close(start)
+		wg.Wait()
+		win := -1
+		for g, ok := range oks {
+			if ok {
+				if win >= 0 {
+					e.Rep.Violate("cas-two-winners:"+k.Store, fmt.Sprintf("round %d: writers %d and %d both succeeded from expected version %q", r, win, g, cur), k)
+					return
+				}
+				win = g
+			}
+		}
+		if win < 0 {
+			e.Rep.Violate("cas-no-winner:"+k.Store, fmt.Sprintf("round %d: none of %d writers expecting the current version %q succeeded", r, k.G, cur), k)
+			return
+		}
+		content := fmt.Sprintf("r%d-g%d", r, win)
+		b, v, err := blobstore.GetBytes(ctx, bs, blobstore.ManifestKey, blobstore.AllRange)
+		if err != nil || string(b) != content || v != vers[win] || v == cur || v == "" {
+			e.Rep.Violate("cas-final:"+k.Store, fmt.Sprintf("round %d: manifest is %q@%q, winner wrote %q and got version %q (previous %q)", r, b, v, content, vers[win], cur), k)
+			return
+		}
+		if resp := m.Ask(fmt.Sprintf("cap %d %s", r, hx.Hex([]byte(content)))); !strings.HasPrefix(resp, "true ") {
+			e.Rep.Disagree(k, "winner", resp, "model register rejected the round's winner")
+		}
+		prev, cur = cur, v
+		// stale writers
+		stale := []string{prev, "no-such-version"}
+		if r > 0 {
+			stale = append(stale, "")
+		}
+		for i, exp := range stale {
+			if exp == cur {
+				continue
+			}
+			_, err := bs.CheckAndPutManifest(ctx, exp, []byte("stale"))
+			b2, v2, _ := blobstore.GetBytes(ctx, bs, blobstore.ManifestKey, blobstore.AllRange)
+			if err == nil || !blobstore.IsCheckAndPutError(err) || string(b2) != content || v2 != cur {
+				e.Rep.Violate("cas-stale-accepted:"+k.Store, fmt.Sprintf("round %d: an update expecting the stale version %q (current %q) returned err=%v and left %q@%q", r, exp, cur, err, b2, v2), k)
+				return
+			}
+			if resp := m.Ask(fmt.Sprintf("cap %d %s", 1000000+i, hx.Hex([]byte("stale")))); !strings.HasPrefix(resp, "false ") {
+				e.Rep.Disagree(k, "stale", resp, "model register accepted a stale update")
+			}
+		}
+	}
+}
+
 func runConcat(e *hx.Env, m *hx.Model, s *stores, k kase) {
 	r := hx.NewRng(k.Seed)
 	n := r.Range(0, 6)
@@ -443,6 +522,8 @@ func runCase(e *hx.Env, m *hx.Model, s *stores, k kase) {
 		runArith(e, m, k)
 	case "cas":
 		runCAS(e, m, s.dir, k)
+	case "casl":
+		runCASLockstep(e, m, s.dir, k)
 	case "concat":
 		runConcat(e, m, s, k)
 	case "nbs":
@@ -453,7 +534,7 @@ func runCase(e *hx.Env, m *hx.Model, s *stores, k kase) {
 func main() {
 	e := hx.Init("blobstore", "C42")
 	defer e.Finish()
-	e.Rep.Rule = "range: ALL (offset, length) with -size-3 <= offset <= size+3, 0 <= length <= size+3 over blobs of sizes 0..40 for the in-memory and local stores, plus random ranges over a 3 kB blob incl. int64 extremes; arith: positiveRange/asHttpRangeHeader on the same grid; cas: G goroutines x R rounds of read-version/CheckAndPutManifest checked against a compare-and-swap register; concat: 0..70 blobs; nbs: put/commit/reopen round trips on a blobstore-backed NBS; nontrivial = suffix range, length 0, clamped or beyond the end; distinct by full case"
+	e.Rep.Rule = "range: ALL (offset, length) with -size-3 <= offset <= size+3, 0 <= length <= size+3 over blobs of sizes 0..40 for the in-memory and local stores, plus random ranges over a 3 kB blob incl. int64 extremes; arith: positiveRange/asHttpRangeHeader on the same grid; cas: G goroutines x R rounds of read-version/CheckAndPutManifest checked against a compare-and-swap register, and lockstep rounds (all writers expect the same version: exactly one wins; stale/empty/unknown expected versions must fail); concat: 0..70 blobs; nbs: put/commit/reopen round trips on a blobstore-backed NBS; nontrivial = suffix range, length 0, clamped or beyond the end; distinct by full case"
 	m := e.MustModel()
 	defer m.Close()
 	dir := filepath.Join(e.Scratch, "bs")
@@ -520,6 +601,12 @@ func main() {
 	for i, n := 0, e.N(3, 12); i < n; i++ {
 		// each successful local update sleeps 10 ms: keep rounds small
 		runCAS(e, m, dir, kase{Stream: "cas", Store: "local", G: r.Range(2, 6), Rounds: r.Range(3, 10), Seed: r.U64() % 100000})
+	}
+	for i, n := 0, e.N(6, 40); i < n; i++ {
+		runCASLockstep(e, m, dir, kase{Stream: "casl", Store: "inmem", G: r.Range(2, 8), Rounds: r.Range(3, 20), Seed: r.U64() % 100000})
+	}
+	for i, n := 0, e.N(3, 12); i < n; i++ {
+		runCASLockstep(e, m, dir, kase{Stream: "casl", Store: "local", G: r.Range(2, 6), Rounds: r.Range(2, 6), Seed: r.U64() % 100000})
 	}
 	for i, n := 0, e.N(20, 200); i < n; i++ {
 		runConcat(e, m, s, kase{Stream: "concat", Store: hx.Pick(r, []string{"inmem", "inmem", "local"}), Seed: r.U64() % 1000000})
